@@ -18,10 +18,10 @@ import (
 func init() {
 	Register(&Engine{
 		Name: "c11", Prop: "C11",
-		Rule: "case = (algorithm ∈ {Compare, CompareWeighted, FBP, TBE}, reference tree, 1..10 related trees on 4..10 taxa, optional fault record " +
-			"(error record / foreign, missing, extra taxon / duplicate tip / malformed text) at a drawn position — sometimes up to five of them, sometimes an empty stream —, feed (real reader goroutine or harness " +
+		Rule: "case = (algorithm ∈ {Compare, CompareWeighted, FBP, TBE}, reference tree, 0..10 related trees on 4..14 (sometimes 60..130) taxa under drawn naming schemes, optional fault record " +
+			"(error record / foreign, missing, extra taxon / duplicate tip / malformed text) at a drawn position — sometimes up to five of them, sometimes an empty stream —, feed (real reader goroutine over Newick or Nexus, or harness " +
 			"producer), thread count ∈ {1,2,3,4,8,16}, schedule = strategy + choice vector + seed + enabled shared-variable sites); executed twice: " +
-			"sequentially (1 thread, run-to-block) and under the drawn schedule. Non-trivial: ≥ 2 worker goroutines each received ≥ 1 record and ≥ 1 context " +
+			"sequentially (1 thread, run-to-block) and under the drawn schedule (in either order). Non-trivial: ≥ 2 worker goroutines each received ≥ 1 record and ≥ 1 context " +
 			"switch happened; distinct = distinct scheduler trace hashes (sequence of (goroutine, site, kind)) among those",
 		Gen: func(rt *rapid.T, tier string) any {
 			return genPipe(rt, tier, pipeGenOpts{algos: []string{"compare", "compareW", "fbp", "tbe"}, faults: true, minTax: 4, maxTax: 14, maxTrees: 10, rootedRef: true,
